@@ -13,11 +13,13 @@ token : k <= 3 Interests with token lengths {0,1,8,32,33,none}; all reply orders
 from __future__ import annotations
 
 import hashlib
+import asyncio
 import itertools
 
 import ndn.encoding as enc
 from ndn.security import DigestSha256Signer
 
+from ndn.transport.stream_face import StreamFace
 from mc.core import Acc
 from mc.vloop import VLoop, tb_where
 from mc.ndnenv import HFace, FRONTENDS, owned_env, exc_class
@@ -284,20 +286,67 @@ def run_frag(fe, pkt_name, variant):
 TOKENS = {'none': None, 't0': b'', 't1': b'\x01', 't8': bytes(range(8)), 't32': bytes(range(32)), 't33': bytes(range(33))}
 
 
-def run_tokens(kinds, order, debug=False, pad=None):
+class SFace(StreamFace):
+    """the shipped stream face with the harness holding the other end of the byte stream: what the application writes is one byte
+    stream; the packets in it are what a reference framer finds (anything left over counts as a packet of its own)"""
+
+    def __init__(self):
+        super().__init__()
+        self.stream = bytearray()
+
+    async def open(self):
+        face = self
+
+        class Writer:
+            def write(self, data):
+                face.stream += bytes(data)
+
+            def close(self):
+                face.reader.feed_eof()
+
+            def is_closing(self):
+                return False
+
+            async def wait_closed(self):
+                return None
+
+            async def drain(self):
+                return None
+        self.reader = asyncio.StreamReader()
+        self.writer = Writer()
+        self.running = True
+
+    def isLocalFace(self):
+        return True
+
+    def deliver(self, wire, typ=None, label=None):
+        self.reader.feed_data(bytes(wire))
+
+    @property
+    def sent(self):
+        from checks.c06 import ref_frames
+        data = bytes(self.stream)
+        frames = [f for _, f in ref_frames(data)]
+        rest = data[sum(len(f) for f in frames):]
+        return frames + ([rest] if rest else [])
+
+
+def run_tokens(kinds, order, debug=False, pad=None, stream=False):
     if debug:
         from mc.ndnenv import debug_logging
         with debug_logging():
             return [(sg + '|debug-logging', w + ' (DEBUG logging enabled)') for sg, w in run_tokens(kinds, order)]
+    if stream:
+        return [(sg + '|stream-face', w + ' (on the shipped stream face)') for sg, w in _run_tokens(kinds, order, pad, stream=True)]
     return _run_tokens(kinds, order, pad)
 
 
-def _run_tokens(kinds, order, pad=None):
+def _run_tokens(kinds, order, pad=None, stream=False):
     """kinds: tuple of token kinds for Interests 0..k-1; order: sequence of Interest indices to reply to (may repeat)"""
     viol = []
     loop = VLoop()
     with loop, owned_env(loop):
-        face = HFace()
+        face = SFace() if stream else HFace()
         app = FRONTENDS['v2'].make_app(face)
         loop.create_task(app.main_loop())
         loop.drain()
@@ -441,6 +490,11 @@ def unit(arg):
                 v = run_tokens(kinds, order, debug=True)
                 acc.evaluations += 1
                 acc.state_count += 1
+            if debug and not v:
+                # ... and on the shipped stream face (what the application writes is a byte stream, re-framed by the reference framer)
+                v = run_tokens(kinds, order, stream=True)
+                acc.evaluations += 1
+                acc.state_count += 1
             acc.evaluations += 1
             acc.state_count += 1
             acc.transitions += len(order)
@@ -449,7 +503,7 @@ def unit(arg):
             acc.outcome(f"token|k={len(kinds)}|{'ok' if not v else 'viol'}")
             acc.observe([kinds, order, [x[0] for x in v]])
             for sig, what in v:
-                acc.violation(sig, what, {'kind': 'token', 'kinds': list(kinds), 'order': order, 'debug': sig.endswith('|debug-logging')})
+                acc.violation(sig, what, {'kind': 'token', 'kinds': list(kinds), 'order': order, 'debug': sig.endswith('|debug-logging'), 'stream': sig.endswith('|stream-face')})
         acc.sample({'token_kinds': list(kinds), 'reply_order': order})
     if k == 'tokensize':
         # one Interest, reply sizes sweeping the Data and the envelope across the one-byte length limit (252 / 253)
@@ -479,5 +533,5 @@ def replay(case):
     elif k == 'frag':
         v = run_frag(case['fe'], case['pkt'], case['variant'])
     else:
-        v = run_tokens(tuple(case['kinds']), case['order'], debug=case.get('debug', False))
+        v = run_tokens(tuple(case['kinds']), case['order'], debug=case.get('debug', False), stream=case.get('stream', False))
     return [{'sig': s, 'what': w} for s, w in v]
